@@ -379,6 +379,8 @@ class Workflow(metaclass=WorkflowMeta):
 
         # Validate the workflow
         self._validate()
+        if self._disable_validation:
+            self._collect_catch_error_routing()
 
         # Extract run_id before passing remaining kwargs to start event
         run_id = kwargs.pop("run_id", None)
@@ -433,6 +435,22 @@ class Workflow(metaclass=WorkflowMeta):
             force=True,  # Explicit validate() call should always run
         )
 
+    def _collect_catch_error_routing(self) -> None:
+        """Populate the @catch_error handler tables when validation is skipped.
+
+        Routing failures to handlers is runtime behaviour, not graph validation,
+        so it must not depend on ``_validate`` having inspected the steps.
+        """
+        if self._validated_version == self.__class__._step_functions_version:
+            return
+        from .representation.validate import _collect_catch_error_handlers
+
+        (
+            self._catch_error_handlers,
+            self._handler_for_step,
+        ) = _collect_catch_error_handlers(self._step_configs())
+        self._validated_version = self.__class__._step_functions_version
+
     def _validate(
         self,
         *,
@@ -441,16 +459,6 @@ class Workflow(metaclass=WorkflowMeta):
         force: bool = False,
     ) -> bool:
         if self._disable_validation and not force:
-            # @catch_error routing is runtime behaviour, not graph validation:
-            # keep the handler tables populated when validation is skipped.
-            if self._validated_version != self.__class__._step_functions_version:
-                from .representation.validate import _collect_catch_error_handlers
-
-                (
-                    self._catch_error_handlers,
-                    self._handler_for_step,
-                ) = _collect_catch_error_handlers(self._step_configs())
-                self._validated_version = self.__class__._step_functions_version
             return False
         stale = self._validated_version != self.__class__._step_functions_version
         if not force and not stale and self._validation_result is not None:
